@@ -65,5 +65,13 @@ example :
       = some (some .joinSuccess, 1000, 2, some 3) := by
   rfl
 
+/-- builder N — the RxDelay the join step stores: 0 and 1 → 1000 ms, d = 2..15 → d·1000 ms -/
+theorem tieA_otaa_rx_delay_values : ∀ k : Fin 16,
+    Gen.OtaaFn.del_to_delay_ms (k.val : Int) = some ((max 1 k.val * 1000 : Nat) : Int) :=
+  TieA.OtaaRx.rx_delay_values
+
+example : Gen.OtaaFn.del_to_delay_ms 0 = some 1000 ∧ Gen.OtaaFn.del_to_delay_ms 15 = some 15000 := by decide
+
 #print axioms tieA_otaa_handle_rx
+#print axioms tieA_otaa_rx_delay_values
 end C11
